@@ -41,7 +41,7 @@ from jaxtyping import AbstractArray
 
 from ._config import config
 from ._errors import AnnotationError, TypeCheckError
-from ._storage import pop_shape_memo, push_shape_memo, shape_str
+from ._storage import get_shape_memo, pop_shape_memo, push_shape_memo, shape_str
 
 
 _Params = ParamSpec("_Params")
@@ -359,13 +359,13 @@ def jaxtyped(fn=_sentinel, *, typechecker=_sentinel):
                 __tracebackhide__ = True
                 bound = signature.bind(*args, **kwargs)
                 bound.apply_defaults()
-                memos = push_shape_memo(bound.arguments)
+                push_shape_memo(bound.arguments)
                 try:
                     return fn(*args, **kwargs)
                 except Exception as e:
                     # add_note api is support from python 3.11+
                     if sys.version_info >= (3, 11) and _no_jaxtyping_note(e):
-                        shape_info = shape_str(memos)
+                        shape_info = shape_str(get_shape_memo())
                         if shape_info != "":
                             msg = (
                                 "The preceding error occurred within the scope of a "
@@ -453,7 +453,7 @@ def jaxtyped(fn=_sentinel, *, typechecker=_sentinel):
                             "----------------------\n"
                             f"Called with parameters: {param_values}\n"
                             f"Parameter annotations: {param_hints}.\n"
-                            + shape_str(memos)
+                            + shape_str(get_shape_memo())
                         )
                         if config.jaxtyping_remove_typechecker_stack:
                             raise TypeCheckError(msg) from None
@@ -506,7 +506,7 @@ def jaxtyped(fn=_sentinel, *, typechecker=_sentinel):
                             "----------------------\n"
                             f"Called with parameters: {param_values}\n"
                             f"Parameter annotations: {param_hints}.\n"
-                            + shape_str(memos)
+                            + shape_str(get_shape_memo())
                         )
                         if config.jaxtyping_remove_typechecker_stack:
                             raise TypeCheckError(msg) from None
